@@ -208,6 +208,19 @@ func checkC01(c CaseC01, info *Info) *Failure {
 		}
 	}
 
+	// one more decode after ONE option was changed through its own setter (and no other setter was called)
+	if c.Fan == 0 {
+		which := len(doc) % 11
+		if which == 3 {
+			which = 5 // not keep-spaces: the document was generated for the trimming mode in force (inter-element blanks would become text runs)
+		}
+		o2 := c.Opts.flipOne(which)
+		k2, v2 := refDecode(c.Doc, o2)
+		m6, err6 := mxj.NewMapXml([]byte(doc), o2.Cast)
+		if err6 != nil || !valEqual(map[string]interface{}(m6), map[string]interface{}{k2: v2}) {
+			return failf("map-mismatch", "NewMapXml after the single setter call #%d\n opts %+v\n doc  %q\n got  %#v (%v)\n want %#v", len(doc)%11, o2, doc, m6, err6, map[string]interface{}{k2: v2})
+		}
+	}
 	var inter, coll, tb bool
 	if c.Fan == 0 { // the class computation is cubic in the number of siblings
 		inter, coll, tb = docClasses(c.Doc, c.Opts)
